@@ -232,7 +232,12 @@ pub fn component_states() -> Vec<State> {
             seq: Some(Seq::of(vec![el("Own", TypeRef::Named(bare("Code"))), Particle::Ref(ElemRef { target: bare("Note"), min: 0, max: Max::N(1), xmlns: vec![] })])),
             ..Default::default()
         }));
-        out.push(State { label: "add complexType with unprefixed base/type/ref under a default namespace (same local names in the imported namespace)".into(), depth: 1, set: s });
+        out.push(State { label: "add complexType with unprefixed base/type/ref under a default namespace (same local names in the imported namespace)".into(), depth: 1, set: s.clone() });
+        // … and an unprefixed ref to a global element whose NAME begins with "xml"
+        s.files[0].comps.push(typed_element("xmlPayload", TypeRef::b("int")));
+        s.files[0].comps.push(anon_element("xmlEnvelope", vec![el("InEnvelope", TypeRef::b("string"))]));
+        s.files[0].comps.push(complex("UsesXmlNamed", vec![Particle::Ref(ElemRef { target: bare("xmlPayload"), min: 1, max: Max::N(1), xmlns: vec![] }), Particle::Ref(ElemRef { target: bare("xmlEnvelope"), min: 0, max: Max::N(1), xmlns: vec![] })]));
+        out.push(State { label: "add unprefixed refs to global elements whose names begin with xml, under a default namespace".into(), depth: 1, set: s });
     }
     // documentation where real schemas put it: an <xs:annotation> as the first child of a sequence,
     // and of an extension
@@ -245,6 +250,15 @@ pub fn component_states() -> Vec<State> {
         holder_mut(&mut s).seq = Some(Seq::of(vec![el("UsesAnnotated", TypeRef::n(NS_A, "AnnotatedSequence")), el("UsesAnnotatedExtension", TypeRef::n(NS_A, "AnnotatedExtension"))]));
         out.push(State { label: "add types with an annotation inside the sequence and inside the extension".into(), depth: 1, set: s });
     }
+    // documentation on the content model: an <xs:annotation> as the first child of <xs:complexContent>
+    {
+        let mut s = seed();
+        let mut seq = Seq::of(vec![el("OwnOfAnnotated", TypeRef::b("string"))]);
+        seq.doc = Some("@complexContent:what this derivation adds".into());
+        s.files[0].comps.push(Comp::Complex(ComplexType { name: "AnnotatedContent".into(), base: Some(QName::new(NS_A, "Leaf")), seq: Some(seq), attrs: vec![Attr { name: "k".into(), ty: TypeRef::b("string"), required: false, value_constraint: None }], ..Default::default() }));
+        s.files[0].comps.push(Comp::Complex(ComplexType { name: "DerivedFromAnnotated".into(), base: Some(QName::new(NS_A, "AnnotatedContent")), seq: Some(Seq::of(vec![el("Further", TypeRef::b("int"))])), ..Default::default() }));
+        out.push(State { label: "add derived type with an annotation on its complexContent, and a type derived from it".into(), depth: 1, set: s });
+    }
     // a global element of THIS namespace that is of a type of the OTHER namespace with the same local
     // name (messages namespace / types namespace layouts do this), used through ref=
     {
@@ -252,6 +266,15 @@ pub fn component_states() -> Vec<State> {
         s.files[0].comps.push(typed_element("LeafB", TypeRef::n(NS_B, "LeafB")));
         holder_mut(&mut s).seq = Some(Seq::of(vec![Particle::Ref(ElemRef { target: QName::new(NS_A, "LeafB"), min: 0, max: Max::N(1), xmlns: vec![] }), el("Direct", TypeRef::n(NS_B, "LeafB"))]));
         out.push(State { label: "add global element named like its type of the other namespace, used through ref=".into(), depth: 1, set: s });
+    }
+    // a simple type whose name is a proper SUFFIX of its base type's name (Code restricts CountryCode …)
+    {
+        let mut s = seed();
+        s.files[0].comps.push(simple("IsoCountryCode", "string", vec![("maxLength", "9")]));
+        s.files[0].comps.push(Comp::Simple(SimpleType { name: "CountryCode".into(), doc: None, xmlns: vec![], base: TypeRef::n(NS_A, "IsoCountryCode"), facets: vec![Facet { kind: "minLength".into(), value: "2".into() }], facets_as_attrs: false }));
+        s.files[0].comps.push(Comp::Simple(SimpleType { name: "ShortCode".into(), doc: None, xmlns: vec![], base: TypeRef::n(NS_A, "Code"), facets: vec![Facet { kind: "maxLength".into(), value: "3".into() }], facets_as_attrs: false }));
+        holder_mut(&mut s).seq = Some(Seq::of(vec![el("Country", TypeRef::n(NS_A, "CountryCode")), el("Iso", TypeRef::n(NS_A, "IsoCountryCode")), el("Short", TypeRef::n(NS_A, "ShortCode"))]));
+        out.push(State { label: "add simple types whose names are suffixes / extensions of their base types' names".into(), depth: 1, set: s });
     }
     // user-defined types that carry the local name of a builtin (`a:time`, `a:language`, `a:string`):
     // the prefix says which namespace is meant
